@@ -238,9 +238,14 @@ void Exec::after_event() {
 
 // Is this rejected-by-the-codec message one of the listed validator findings (ids in known_findings.json)?
 std::string Exec::known_validator_gap(const std::string &bytes, const std::string &reason) {
-  (void)bytes;
-  for (auto &id : md.known)
-    if (id.compare(0, 4, "C01-") == 0 && id.find(reason) != std::string::npos) return id;
+  // the two listed validator findings, by their exact condition (see libstream.cc known_gap)
+  wire::Limits lim;
+  if (lim_cfg.max_message_size >= 0) lim.max_message_size = (uint32_t)lim_cfg.max_message_size;
+  lim.max_unix_fds_available = 0;
+  wire::ParseResult r = wire::parse(reinterpret_cast<const uint8_t *>(bytes.data()), bytes.size(), lim);
+  std::string one = (r.total_len > 0 && r.total_len <= bytes.size()) ? bytes.substr(0, r.total_len) : bytes;
+  if ((reason == "sig" || reason == "variant-sig" || reason == "field-sig") && md.known.count("C01-signature-nesting-or-brackets") && wire::valid_if_relaxed(one, 1, lim)) return "C01-signature-nesting-or-brackets";
+  if ((reason == "field-value" || reason == "name") && md.known.count("C01-unique-name-without-period") && wire::valid_if_relaxed(one, 2, lim)) return "C01-unique-name-without-period";
   return "";
 }
 
@@ -509,7 +514,8 @@ void Exec::step(const Step &s) {
       md.lim_next = lim2_model;
       md.activatable_next = activatable2;
     }
-    if (s.S(0) != "ListNames" && s.S(0) != "GetId" && s.S(0) != "ListActivatableNames" && s.S(0) != "ReloadConfig") body.push_back(wire::Value::string(resolve_name(s.S(1))));
+    if (s.S(0) == "UpdateActivationEnvironment") body.push_back(wire::Value::array("{ss}", {wire::Value::dict_entry(wire::Value::string(s.S(1)), wire::Value::string(s.S(2)))}));
+    else if (s.S(0) != "ListNames" && s.S(0) != "GetId" && s.S(0) != "ListActivatableNames" && s.S(0) != "ReloadConfig") body.push_back(wire::Value::string(resolve_name(s.S(1))));
     if (s.S(0) == "StartServiceByName") body.push_back(wire::Value::u32(0));
     wire::Msg m = driver_call(ci, s.S(0), body);
     send_msg(ci, m, s.N(0, -1));
@@ -1076,6 +1082,22 @@ void Exec::check_activation_starts() {
     simk::Process *p = K->procs[i];
     if (p->argv.size() != 2 || p->argv[0] != "/usr/libexec/simsvc" || !md.activatable.count(p->argv[1]))
       fail("oracle:C19:wrong-program", "the bus started a program that no service file names");
+    // the started program is told which bus started it - whatever clients stored in the activation environment -
+    // and is handed the variables clients did store there
+    std::map<std::string, std::string> env;
+    for (auto &kv : p->env) { size_t eq = kv.find('='); if (eq != std::string::npos) env[kv.substr(0, eq)] = kv.substr(eq + 1); }
+    if (!env.count("DBUS_STARTER_ADDRESS") || env["DBUS_STARTER_ADDRESS"].compare(0, 20, "unix:abstract=simbus") != 0)
+      fail("oracle:C19:starter-address", "the program started for %s was given DBUS_STARTER_ADDRESS=%s, the bus that started it listens on unix:abstract=simbus", p->argv[1].c_str(),
+           env.count("DBUS_STARTER_ADDRESS") ? env["DBUS_STARTER_ADDRESS"].c_str() : "(unset)");
+    for (auto &kv : md.act_env) {
+      if (kv.first == "DBUS_STARTER_ADDRESS") continue;
+      // a request still in flight when the program was started may or may not have been applied: any value the
+      // variable was ever given is admissible, its absence only before the first request was answered
+      if (env.count(kv.first)) {
+        if (!kv.second.count(env[kv.first])) fail("oracle:C19:activation-environment", "the program started for %s was given %s=%s, which no client ever stored", p->argv[1].c_str(), kv.first.c_str(), env[kv.first].c_str());
+        else counters["activation_env_seen"]++;
+      }
+    }
     activation_pid[p->argv[1]] = p->pid;
     counters["service_processes_started"]++;
   }
